@@ -390,6 +390,21 @@ def model_out(ans):
     return ['ok', G.norm_events(evwire.unstream(evs))]
 
 
+def model_exact(ans, lang):
+    """gdrv answer of `impl` -> exact events (None unless it rendered)"""
+    if ans in ('unmodelled', 'bad-op', 'bad-line'):
+        return None
+    v = proto.dec(ans)
+    if v[0] != 'ok':
+        return None
+    from harness import evwire
+    ev = G.exact_events(evwire.unstream(v[1] if len(v) > 1 else []))
+    if lang != 'markup':
+        # text templates convert numbers with str, not Markup (Template._number_conv)
+        ev = [[e[0], e[1], False] if e[0] == 'T' else e for e in ev]
+    return ev
+
+
 def model_lines(verb, cases):
     return [proto.line(Atom('C04'), Atom(verb), Atom(c['lang']), FUEL, G.nodes_w(c['nodes']), G.data_w(c['data']))
             for c in cases]
@@ -401,10 +416,13 @@ def doc_answers(cases):
     return [model_out(a) for a in proto.run_lines(model_lines('doc', cases))]
 
 
-def impl_answers(cases):
+def impl_answers(cases, exact=False):
     if not cases:
         return []
-    return [model_out(a) for a in proto.run_lines(model_lines('impl', cases))]
+    raw = proto.run_lines(model_lines('impl', cases))
+    if exact:
+        return [(model_out(a), model_exact(a, c['lang'])) for a, c in zip(raw, cases)]
+    return [model_out(a) for a in raw]
 
 
 
@@ -643,7 +661,7 @@ def shard(arg):
     res = Result()
     cases = [gen_case(rng, i) for i in range(n)]
     docs = doc_answers([dict(c, check='doc') for c in cases]) if use_model else [None] * n
-    impls = impl_answers(cases) if use_model else [None] * n
+    impls = impl_answers(cases, exact=True) if use_model else [(None, None)] * n
     preps = prepared_model(cases) if use_model else [None] * n
     for c, pm in zip(cases, preps):
         if pm is None:
@@ -653,8 +671,9 @@ def shard(arg):
         if pr != pm:
             res.disagreements.append({'stream': 'prepared-stream', 'case': c, 'model': repr(pm)[:800],
                                       'real': repr(pr)[:800], 'source': G.source(c['lang'], c['nodes'])})
-    for c, doc, impl in zip(cases, docs, impls):
-        base = real(c['lang'], c['nodes'], c['data'])
+    for c, doc, (impl, impl_ex) in zip(cases, docs, impls):
+        real_ex = []
+        base = G.render_real(c['lang'], c['nodes'], c['data'], exact=real_ex)
         res.evaluations += 1
         res.count('lang:' + c['lang'])
         res.count('real:' + (base[0] if base[0] == 'ok' else base[1]))
@@ -688,6 +707,12 @@ def shard(arg):
                 if base[0] != 'invalid' and impl != b2:
                     res.disagreements.append({'stream': 'impl-render', 'case': c, 'model': repr(impl)[:600],
                                               'real': repr(b2)[:600], 'source': G.source(c['lang'], c['nodes'])})
+                elif base[0] == 'ok' and impl_ex is not None:
+                    # event by event: chunking of text and the Markup flag included
+                    res.streams['impl-exact-events'] = res.streams.get('impl-exact-events', 0) + 1
+                    if impl_ex != real_ex:
+                        res.disagreements.append({'stream': 'impl-exact-events', 'case': c, 'model': repr(impl_ex)[:600],
+                                                  'real': repr(real_ex)[:600], 'source': G.source(c['lang'], c['nodes'])})
     res.samples = [{'lang': c['lang'], 'source': G.source(c['lang'], c['nodes']), 'data': c['data']} for c in cases[:2]]
     return res
 
